@@ -125,6 +125,14 @@ func genC07Cache(level int) []*CacheScen {
 			}
 		}
 		add(&CacheScen{Rel: RelSD, NKeys: 3, Init: []int{IAbsent, IExpired, ILive}, Table: TGrowArmed, Threads: [][]CIn{{cRange}, {con(cSet, 0)}}})
+		// traversals of a cache with a history (resized, cleaned up once), alone and against a writer / a cleanup
+		// pass, and with an entry that expires while the traversal may be running
+		add(&CacheScen{Rel: RelSD, NKeys: 3, Init: []int{ILiveTTL, IExpired, ILive}, Table: TPlain, Warm: true, Threads: [][]CIn{{cRange}}})
+		for _, w := range []CIn{cSet, cDelete, cDelExp, cGaR} {
+			add(&CacheScen{Rel: RelSD, NKeys: 3, Init: []int{ILive, IExpired, ILive}, Table: TPlain, Warm: true, Threads: [][]CIn{{cRange}, {con(w, 0)}}})
+		}
+		add(&CacheScen{Rel: RelSD, NKeys: 3, Init: []int{IAbsent, IExpired, ILive}, Table: TPlain, Threads: [][]CIn{{cRange}, {con(CIn{Op: CSet, D: 2}, 0), {Op: CAdvance, D: 3}, cRange}}})
+		add(&CacheScen{Rel: RelSD, NKeys: 3, Init: []int{IAbsent, IExpired, ILive}, Table: TPlain, Warm: true, Threads: [][]CIn{{cDelExp}, {con(CIn{Op: CSet, D: 2}, 0), {Op: CAdvance, D: 3}, cRange}}})
 		if level >= 1 {
 			add(&CacheScen{Rel: RelDD, NKeys: 3, Init: []int{ILive, IExpired, ILive}, Table: TPlain, Bound: 3, Threads: [][]CIn{{cRange}, {con(cDelete, 0)}, {cDelExp}}})
 		}
@@ -247,6 +255,8 @@ func init() {
 	wrap("C05", genC05Cache, OLin|OFn, true)
 	wrap("C07", genC07Cache, OLin|ORange, false)
 	wrap("C08", genC08Cache, OCount, false)
+	c08 := scenarioGens["C08"]
+	scenarioGens["C08"] = func(tier string) []*Scenario { return append(c08(tier), genStaggered("C08")...) }
 	wrap("C13", genC13Cache, OTerm, false)
 	wrap("C16", genC16Cache, OMon|OLin, false)
 }
